@@ -181,6 +181,14 @@ def run(run):
         j = judge(doc, None)
         if j is not None:
             classes.setdefault(j[1], engine.Violation(H, {"kind": "conforming", "container": None}, doc, j[2], j[3], j[0], j[1]))
+    # generated conforming documents (shared generator with C07) must record no parse errors either
+    from checks import c07_roundtrip as c07
+    for r in engine.pmap(c07._equiv_shard, c07.equivalence_shards(run.tier), chunksize=1):
+        run.add("conforming_documents", r["docs"])
+        for code, text in r["conf_err"].items():
+            classes.setdefault("conforming:" + code, engine.Violation(
+                H, {"kind": "conforming", "container": None}, text, [], [code],
+                "a conforming document records parse error %s" % code, "conforming:" + code))
     for v in classes.values():
         run.violation(v)
     from html5lib.constants import E
